@@ -25,8 +25,14 @@ Proof. vm_compute. auto. Qed.
 
 Lemma statement_refuted : ~ read_matches_spec_statement.
 Proof.
-  intro H. specialize (H XAlg db_ab m_ab F64 1 4 wf_m_ab ltac:(lia) ltac:(lia)).
-  destruct witness_unaligned as (Hi & Hs & _). rewrite Hi, Hs in H. discriminate.
+  intro H.
+  pose proof (H XAlg db_ab m_ab F64 1 4 wf_m_ab ltac:(lia) ltac:(lia)) as H0.
+  destruct witness_unaligned as (Hi & Hs & _).
+  assert (E : Some [XV 4626322717216342016; XV 4629137466983448576; XV 4635329916471083008; XV 4636737291354636288] =
+              Some [XV 4626322717216342016; XV 4633641066610819072; XV 4635329916471083008; XV 4639481672377565184]).
+  { transitivity (impl_read XAlg db_ab F64 m_ab 1 4); [symmetry; exact Hi|].
+    transitivity (Some (spec_window XAlg db_ab F64 m_ab 1 4)); [exact H0|]. rewrite Hs. reflexivity. }
+  clear - E. injection E as E1. discriminate E1.
 Qed.
 
 (* second input exhausted: 4 samples of unwritten memory instead of none *)
@@ -63,7 +69,7 @@ Proof. vm_compute. auto. Qed.
 Lemma covered_example :
   wf db_ab m_ab /\ covered XAlg db_ab F64 m_ab 2 4 /\
   impl_read XAlg db_ab F64 m_ab 2 4 =
-    Some [XV 4629137466983448576; XV 4635329916471083008; XV 4639481672377565184; XV 4640537203540230144].
+    Some [XV 4633641066610819072; XV 4635329916471083008; XV 4639481672377565184; XV 4640537203540230144].
 Proof. split; [exact wf_m_ab|]. vm_compute. auto. Qed.
 
 (* consequences of read_ok *)
